@@ -286,7 +286,7 @@ func E(name, typ string, kv ...any) Ent {
 	return e
 }
 
-func (g *Gen) base() *Base { return g.Bases[g.R.Pick(6, 2, 2)] }
+func (g *Gen) base() *Base { return g.Bases[g.R.Pick(8, 1, 1)] }
 
 func (g *Gen) blobInput(b *Base, class string, toc []byte) Input {
 	blob, ext := b.Assemble(toc)
